@@ -54,7 +54,9 @@ pub fn print_child(threads: usize, calls: usize, stream: &str) {
                 let mut kept_err = anstream::stderr();
                 for c in 1..=calls {
                     let pad = "x".repeat(r.below(40));
-                    let kind = (c + t) % 17;
+                    // every fourth thread prints every second record through an explicit lock handle (a holder of the stream's own lock that
+                    // takes no part in any other arrangement the other calls may have among themselves)
+                    let kind = if t % 4 == 0 && c % 2 == 0 { 13 } else { (c + t) % 17 };
                     // calls that end with a newline of their own (println!, a "\n" in the format string, writeln!, a record ending in
                     // "\n") announce 4 fragments: the newline right after the third is the fourth and belongs to the same call
                     let n = if matches!(kind, 0 | 1 | 2 | 4) { 4 } else { 3 };
